@@ -21,6 +21,7 @@
 import Flamego.Gen.LeafURLCode
 import Flamego.Code.LoopLemmas
 import Flamego.Props.C12
+import Flamego.Code.LibRoute
 set_option linter.unusedSimpArgs false
 set_option linter.unusedVariables false
 namespace Flamego.C12LeafCode
@@ -264,6 +265,18 @@ theorem code_optional_fallback_root (l : baseLeaf) (r : Flamego.Route) (hl : l.r
     (vals : List (Bytes × Bytes)) : (URLPath l vals false).1 = B "/" := by
   rw [urlPath_refines l r hl]
   exact C12.urlPath_fallback_root r s rest h ho vals
+
+/-! ### joined with the router's half -/
+
+/-- a leaf of the model as the Go struct `URLPath` runs on -/
+def leafCodeOf (l : Flamego.Leaf) : baseLeaf := { (default : baseLeaf) with route := some (goRoute l.route) }
+
+/-- what `Lib.Leaf_URLPath` stands for in the translated `router.URLPath` (Props/C12Code) is what the translated
+`baseLeaf.URLPath` computes on that leaf: the two halves of URL building, joined at the level of the code -/
+theorem leaf_urlPath_is_lib (l : Flamego.Leaf) (vals : List (Bytes × Bytes)) (wo : Bool) :
+    Lib.Leaf_URLPath l vals wo = (URLPath (leafCodeOf l) vals wo).1 := by
+  rw [urlPath_refines (leafCodeOf l) l.route rfl]
+  rfl
 
 /-! ### the definitions compute -/
 
